@@ -320,6 +320,11 @@ func c13Jobs(tier string) []Job {
 	var jobs []Job
 	set := func(k int) Op { return Op{K: "set", Key: k, Cost: 1} }
 	cfg := Cfg{NumCounters: 16, MaxCost: 2, BufferItems: 2, SetBuf: 2, TTLTick: 2, BucketSecs: 1}
+	// Clear racing a Set of a new key (bound 1: Clear takes every shard lock)
+	for i, w := range [][]Op{{set(2)}, {set(257), set(2)}, {{K: "del", Key: 1}, set(2)}} {
+		sc := &Scenario{Name: fmt.Sprintf("dfs/clear|writer%d", i), Cfg: cfg, Setup: []Op{set(1), {K: "wait"}}, Threads: [][]Op{{{K: "clear"}}, cp(w)}, Epilogue: []Op{{K: "wait"}}}
+		jobs = append(jobs, Job{Scenario: sc, Bound: bound - 1})
+	}
 	progs := [][]Op{{set(1), {K: "del", Key: 1}}, {set(1), set(257)}, {{K: "del", Key: 1}, set(1)}, {{K: "setttl", Key: 1, Cost: 1, TTL: 1000}, set(2)}}
 	for i, a := range progs {
 		for j, b := range progs {
@@ -405,7 +410,19 @@ func c17Oracle(r *SeqRun) []Viol {
 		out = append(out, Viol{Key: "C17/setsdropped-differs-from-refused-sets", What: fmt.Sprintf("SetsDropped %d != %d new-key Sets refused because the write buffer was full", m["sets-dropped"], drops)})
 	}
 	if m["gets-kept"]+m["gets-dropped"] > gets {
-		out = append(out, Viol{Key: "C17/getskept-plus-getsdropped-exceeds-gets", What: fmt.Sprintf("GetsKept %d + GetsDropped %d > %d Gets", m["gets-kept"], m["gets-dropped"], gets)})
+		// classify: Gets issued BEFORE the last Clear can still sit in a ring stripe and are
+		// handed to the policy (and counted) after the Clear has reset the metrics
+		var total uint64
+		for _, e := range r.Events {
+			if e.Kind == evGetRet {
+				total++
+			}
+		}
+		key := "C17/getskept-plus-getsdropped-exceeds-gets"
+		if m["gets-kept"]+m["gets-dropped"] <= total {
+			key = "C17/getskept-counts-gets-issued-before-the-last-clear"
+		}
+		out = append(out, Viol{Key: key, What: fmt.Sprintf("GetsKept %d + GetsDropped %d > %d Gets since the last Clear (%d since creation)", m["gets-kept"], m["gets-dropped"], gets, total)})
 	}
 	return out
 }
@@ -424,7 +441,7 @@ func c17Abstract(r *SeqRun, ren func(int64) int64) string {
 			}
 		}
 	}
-	return fmt.Sprintf("g%d d%d", gets, drops)
+	return fmt.Sprintf("g%d d%d", gets, drops) // (Gets before the last Clear only matter through the ring stripes, which are in the key)
 }
 
 func c17Spec(sb int, maxCost int64, keys []int, depth int, ttl bool) *SeqSpec {
@@ -435,7 +452,7 @@ func c17Spec(sb int, maxCost int64, keys []int, depth int, ttl bool) *SeqSpec {
 			alpha = append(alpha, Op{K: "setttl", Key: k, Cost: 1, TTL: 1000})
 		}
 	}
-	alpha = append(alpha, Op{K: "wait"}, Op{K: "drain"})
+	alpha = append(alpha, Op{K: "wait"}, Op{K: "drain"}, Op{K: "clear"})
 	if ttl {
 		alpha = append(alpha, Op{K: "advance", N: 3000}, Op{K: "tick"})
 	}
